@@ -477,6 +477,56 @@ def opsOf : List Act → List Op
 /-- a freshly opened durable store (`open_durable` on an empty directory) -/
 def Sys.fresh (mode : SyncMode) : Sys := ⟨mode, Wal.openOn [], Store.empty, none⟩
 
+/-! ### appends that fail (`SizeLimitExceeded` with `auto_rotate = false`, I/O errors) -/
+
+/-- `write_entry_no_sync` with `auto_rotate = false`: a record that would take the file beyond
+    `max_size_bytes` is refused with `SizeLimitExceeded`; nothing is written -/
+def Wal.appendLim (mode : SyncMode) (maxSize : Nat) (w : Wal) (recBytes : Bytes) : Option Wal :=
+  if w.file.length + recBytes.length > maxSize then none else some (Wal.append mode w recBytes)
+
+/-- memory after a `put_durable` / `delete_durable` that returned an error because one of its
+    appends was refused (`?` before the in-memory apply): nothing is applied — except that
+    `put_durable` calls `index.get_or_create(key)` BEFORE it logs the `EmbeddingSet` record of an
+    `emb:` key whose value carries a vector, and does not undo it: the entity-index entry stays. -/
+def failMem (s : Store) : Op → Store
+  | .put k v =>
+      if isCacheKey k then s
+      else if classify k = .embedding ∧ v.emb.isSome then { s with vocab := (idxGetOrCreate s.vocab k).2 }
+      else s
+  | .delete _ => s
+
+/-- one operation of which only the first `t` records could be appended (`none`, or `t` not less
+    than the number of its records: all of them; the operation returns `Ok`).  Result: records
+    appended, memory afterwards, `Ok`? -/
+def stepF (s : Store) (o : Op) (t : Option Nat) : List Entry × Store × Bool :=
+  match t with
+  | none => ((step s o).1, (step s o).2, true)
+  | some t =>
+      if t < (step s o).1.length then ((step s o).1.take t, failMem s o, false)
+      else ((step s o).1, (step s o).2, true)
+
+/-- a session in which appends may fail: the log, the memory, and the operations that returned `Ok` -/
+def runOpsF (s : Store) : List (Op × Option Nat) → List Entry × Store × List Op
+  | [] => ([], s, [])
+  | (o, t) :: r =>
+      let a := stepF s o t
+      let b := runOpsF a.2.1 r
+      (a.1 ++ b.1, b.2.1, if a.2.2 then o :: b.2.2 else b.2.2)
+
+/-- append the records of one operation until one is refused: the log, and how many were appended -/
+def logLim (crc : Bytes → Nat) (enc : Entry → Bytes) (mode : SyncMode) (maxSize : Nat) (w : Wal) :
+    List Entry → Wal × Nat
+  | [] => (w, 0)
+  | e :: es =>
+      match Wal.appendLim mode maxSize w (encodeRec crc (enc e)) with
+      | none => (w, 0)
+      | some w' => let r := logLim crc enc mode maxSize w' es; (r.1, r.2 + 1)
+
+/-- `put_durable` / `delete_durable` under `auto_rotate = false`, `max_size_bytes = maxSize` -/
+def Sys.opLim (crc : Bytes → Nat) (enc : Entry → Bytes) (maxSize : Nat) (sy : Sys) (o : Op) : Sys :=
+  let r := logLim crc enc sy.mode maxSize sy.wal (step sy.mem o).1
+  { sy with wal := r.1, mem := (stepF sy.mem o (some r.2)).2.1 }
+
 /-! ### `TensorStore` with a Bloom filter (`open_durable_with_bloom`, `recover_with_bloom`) -/
 
 /-- the router plus the keys the filter has been given (`filter.add`).  `get` / `exists` answer
